@@ -128,7 +128,7 @@ class C06(Prop):
     pid = "C06"
     prop_file = "Props/C06.v"
     module = "Props.C06"
-    gen_deps = ["Table", "StreamFn", "FmtFn"]
+    gen_deps = ["Table", "StripFn", "StreamFn", "FmtFn"]
     harness = ("h-core", "hcore")
     nontrivial_rule = ("cases: the standard caller protocol over StripStream::write for EVERY script over {accept 0,1,2,3,all} u {Interrupted, WouldBlock, Other} up to depth 4 "
                        "(quick) / 5 (thorough) against six short escape-rich inputs, and seeded random scripts against long grammar inputs; sequences of write / write_all / "
@@ -176,6 +176,12 @@ class C06(Prop):
             cut = rng.randrange(0, len(data) + 1)
             lines.append("lk8 strip %s %s %s" % (rng.choice(["out", "err"]), gen.hexs(data[:cut]), gen.hexs(data[cut:])))
         yield "locked-std-streams", lines
+        # a write cut right after a prefix that leaves a rare state behind, then a long plain run at a power-of-two length
+        lines = []
+        for data, cuts in gen.threshold_cases(rng, tier == "thorough"):
+            chunks = [ch for ch in gen.apply_cuts(data, cuts) if ch]
+            lines.append("strm strip %s - %s" % (rng.choice(["vec", "boxed"]), ",".join("%s:%s" % (rng.choice("aw"), gen.hexs(ch)) for ch in chunks)))
+        yield "threshold-runs-after-rare-states", lines
 
     def observe(self, ctx, name, lines, results):
         if not name.startswith("protocol"):
